@@ -1112,7 +1112,7 @@ impl<'s> PGen<'s> {
         if c.chance(p_ell) {
             let w_list = if depth_left > 0 { 30 } else { 0 };
             let w_other = if self.exotic { 5 } else { 0 };
-            let pe = match c.weighted(&[65, w_list, w_other]) {
+            let pe = match c.weighted(&[60, w_list * 3 / 2, w_other]) {
                 0 => self.fresh_var(edepth + 1),
                 1 => self.list(c, depth_left - 1, edepth + 1, false, false),
                 _ => match c.below(3) {
@@ -1150,13 +1150,15 @@ struct TGen<'s> {
 impl<'s> TGen<'s> {
     fn constant(&self, c: &mut Choices) -> Sx {
         let w_lit = if self.literals.is_empty() { 0 } else { 15 };
-        match c.weighted(&[40, 25, w_lit, 8, 6, 6]) {
+        match c.weighted(&[40, 25, w_lit, 8, 6, 6, 4]) {
             0 => Sx::sym(RESERVED[c.below(RESERVED.len())]),
             1 => Sx::int(c.below(4) as i64),
             2 => Sx::Sym(self.literals[c.below(self.literals.len())].clone()),
             3 => Sx::Str("s".into()),
             4 => Sx::nil(),
-            _ => Sx::Bool(c.flip()),
+            5 => Sx::Bool(c.flip()),
+            // in a template the underscore is an ordinary identifier
+            _ => Sx::sym("_"),
         }
     }
 
@@ -1195,9 +1197,13 @@ impl<'s> TGen<'s> {
     fn list(&self, c: &mut Choices, level: usize, depth_left: usize, must: Vec<Sx>, vector: bool) -> Sx {
         let n = if must.is_empty() { 1 + c.weighted(&[30, 40, 30]) } else { c.weighted(&[40, 35, 25]) };
         let mut groups: Vec<Vec<Sx>> = vec![];
+        // the SUT rejects a second ellipsis in one template list: keep that to a probe rate
+        let mut ngroups = if must.len() > 1 { 1 } else { 0 };
         for _ in 0..n {
             let deeper = self.deeper(level);
-            if !deeper.is_empty() && c.chance(110) {
+            let p: u8 = if ngroups == 0 { 120 } else { 12 };
+            if !deeper.is_empty() && c.chance(p) {
+                ngroups += 1;
                 groups.push(self.egroup(c, level + 1, depth_left, None));
             } else {
                 groups.push(vec![self.elem(c, level, depth_left)]);
@@ -1227,7 +1233,7 @@ impl<'s> TGen<'s> {
         };
         let ell = Sx::sym(self.ellipsis);
         if v.1 == level {
-            if depth_left == 0 || !c.chance(100) {
+            if depth_left == 0 || !c.chance(130) {
                 vec![Sx::Sym(v.0.clone()), ell]
             } else {
                 vec![self.list(c, level, depth_left - 1, vec![Sx::Sym(v.0.clone())], false), ell]
